@@ -70,8 +70,18 @@ impl Wake for IdWaker {
     }
 }
 
+/// The waker with identity `id`. Two calls with the same `id` return clones of ONE waker, so that
+/// `Waker::will_wake` holds between them — as it does for the wakers a real executor passes to the
+/// successive polls of one task (a10 relies on it: `set_waker`, op.rs:957-963).
 pub fn waker(id: u32) -> Waker {
-    Waker::from(Arc::new(IdWaker { id }))
+    static CACHE: Mutex<Vec<(u32, Waker)>> = Mutex::new(Vec::new());
+    let mut c = lockp(&CACHE);
+    if let Some((_, w)) = c.iter().find(|(i, _)| *i == id) {
+        return w.clone();
+    }
+    let w = Waker::from(Arc::new(IdWaker { id }));
+    c.push((id, w.clone()));
+    w
 }
 
 pub fn drain_wakes() -> Vec<u32> {
